@@ -38,6 +38,10 @@ def gen_ops(rng, thorough, with_reload=True):
             rule = {"when": {"pattern": {rng.choice(["go", "k"]): rng.choice(["?x", "?y"])}}, "action": {"code": "(%s)" % json.dumps(v), "verif_tmpl": {"t": "lit", "v": v}}}
             if rng.random() < 0.3: rule["ttl"] = rng.choice([100000, "1000s"])
             if rng.random() < 0.2: rule["deleteWith"] = [rng.choice(IDS)]
+            if rng.random() < 0.18:
+                # a scheduled rule (no `when`): stored and listed, never dispatched for events -- also when it replaces an event rule
+                # under the same id, live and after a reload alike (the schedule lies far in the future; no cron is attached here)
+                rule = {"schedule": rng.choice(["0 0 1 1 *", "+1000h", "!2099-01-01T00:00:00Z"]), "action": rule["action"]}
             ops.append({"op": "addRule", "id": rng.choice(["r1", "r2"]), "rule": rule})
         elif r < 0.58: ops.append({"op": "remFact", "id": i})
         elif r < 0.64: ops.append({"op": "remRule", "id": rng.choice(["r1", "r2"])})
